@@ -4,13 +4,113 @@ Line-protocol driver for the C02 syntax model.  Requests:
   parse <inloop 0|1> <tok>…   the token stream (wire form of Model/Tok.lean) of a template made of
                               one `{{ expr }}` block → "ok Ns1 Expr <expr wire>" | "err" |
                               "panic <site>" | "fuel" | "unsupported" (not of that shape) | "bad-args"
+  spec <S wire>               the reference printer of Spec/Precedence.lean: "<DocWP of canon 0|1> <need> <bneed>
+                              <adneed> | <tokens of the documented spelling> | <AST wire the spelling denotes>"
   parsefor <tok>…             same for a template `{% for q in xs %}{{ expr }}{% endfor %}` (expression
                               parsed inside a loop, one nesting level deeper)
 -/
 import TeraModel.Model.AstWire
 import TeraModel.Model.Tok
 import TeraModel.Model.ExprParser
+import TeraModel.Spec.Precedence
 open Tera
+
+/-! ### the reference printer as a service: `spec <S wire>` (see `parseS` for the wire form) -/
+
+def tokWire : Tok → String
+  | .content s => "content:" ++ AstWire.hexOfString s
+  | .variableStart w => if w then "vs1" else "vs0"
+  | .variableEnd w => if w then "ve1" else "ve0"
+  | .tagStart w => if w then "ts1" else "ts0"
+  | .tagEnd w => if w then "te1" else "te0"
+  | .ident s => "id:" ++ AstWire.hexOfString s
+  | .str s => "str:" ++ AstWire.hexOfString s
+  | .integer n => s!"int:{n}"
+  | .float x => "float:" ++ Wire.natHex16 x.toBits
+  | .bool b => if b then "bool1" else "bool0"
+  | t => match Tok.punct.find? (fun p => p.2 == t) with
+    | some (n, _) => n
+    | none => "?"
+
+def hexStr (h : String) : Option String := AstWire.stringOfHex h
+
+partial def parseS : List String → Option (Spec.S × List String)
+  | [] => none
+  | t :: rest =>
+    let un (f : Spec.S → Spec.S) := (parseS rest).map (fun (e, r) => (f e, r))
+    let bin (f : Spec.S → Spec.S → Spec.S) := do
+      let (a, r) ← parseS rest
+      let (b, r) ← parseS r
+      pure (f a b, r)
+    if t == "b0" then some (.bool false, rest) else if t == "b1" then some (.bool true, rest)
+    else if t == "absent" then some (.absent, rest)
+    else if t == "argnil" then some (.argNil, rest) else if t == "argend" then some (.argEnd, rest)
+    else if t == "inil" then some (.itemNil, rest) else if t == "iend" then some (.itemEnd, rest)
+    else if t == "enil" then some (.entryNil, rest) else if t == "eend" then some (.entryEnd, rest)
+    else if t == "paren" then un .paren
+    else if t == "un:Not" then un (.unary .Not) else if t == "un:Minus" then un (.unary .Minus)
+    else if t == "notin" then bin .notIn
+    else if t == "idx" then bin .index
+    else if t == "sub0" then bin (fun a b => .sub a b false)
+    else if t == "sub1" then bin (fun a b => .sub a b true)
+    else if t == "arr" then un .arr else if t == "map" then un .mapLit
+    else if t == "item0" then bin (.itemCons false) else if t == "item1" then bin (.itemCons true)
+    else if t == "esp" then bin .entrySpread
+    else if t == "tern" then do
+      let (c, r) ← parseS rest
+      let (a, r) ← parseS r
+      let (b, r) ← parseS r
+      pure (.ternary c a b, r)
+    else if t == "slice" || t == "sslice0" || t == "sslice1" then do
+      let (e, r) ← parseS rest
+      let (a, r) ← parseS r
+      let (b, r) ← parseS r
+      let (c, r) ← parseS r
+      pure (if t == "slice" then .slice e a b c else .subSlice e a b c (t == "sslice1"), r)
+    else if t == "ekv" then
+      match rest with
+      | k :: r => do
+        let key ← (if k == "kb0" then some (Spec.SKey.bool false) else if k == "kb1" then some (.bool true)
+          else if let some d := Wire.afterPrefix "ki:" k then d.toInt?.map .int
+          else if let some d := Wire.afterPrefix "ks:" k then (hexStr d).map .str else none)
+        let (v, r) ← parseS r
+        let (es, r) ← parseS r
+        pure (.entryKV key v es, r)
+      | [] => none
+    else if let some d := Wire.afterPrefix "int:" t then d.toInt?.map (fun n => (.int n, rest))
+    else if let some d := Wire.afterPrefix "flt:" t then
+      (Wire.hexNat d.toList).map (fun n => (.float (F64.ofBits n), rest))
+    else if let some d := Wire.afterPrefix "str:" t then (hexStr d).map (fun x => (.str x, rest))
+    else if let some d := Wire.afterPrefix "none:" t then (hexStr d).map (fun x => (.noneLit x, rest))
+    else if let some d := Wire.afterPrefix "var:" t then (hexStr d).map (fun x => (.var x, rest))
+    else if let some d := Wire.afterPrefix "bin:" t then
+      match BinaryOperator.ofName d with
+      | some op => bin (.binary op)
+      | none => none
+    else if let some d := Wire.afterPrefix "fil:" t then do
+      let n ← hexStr d
+      un (fun e => .filter e n)
+    else if let some (g, n) := AstWire.flagged "tst" t then un (fun e => .test e n g)
+    else if let some (o, n) := AstWire.flagged "attr" t then un (fun e => .attr e n o)
+    else if let some d := Wire.afterPrefix "call:" t then do
+      let n ← hexStr d
+      un (.call n)
+    else if let some d := Wire.afterPrefix "filA:" t then do
+      let n ← hexStr d
+      bin (fun e a => .filterA e n a)
+    else if let some (g, n) := AstWire.flagged "tstA" t then bin (fun e a => .testA e n g a)
+    else if let some d := Wire.afterPrefix "arg:" t then do
+      let n ← hexStr d
+      bin (.argCons n)
+    else if t == "comp0" || t == "comp1" then do
+      let (e, r) ← parseS rest
+      let (key, r) ← (if t == "comp1" then (AstWire.parseName r).map (fun (k, r) => (some k, r))
+        else some (none, r))
+      let (v, r) ← AstWire.parseName r
+      let (tg, r) ← parseS r
+      let (c, r) ← parseS r
+      pure (.comp e key v tg c, r)
+    else none
 
 def handle (line : String) : String :=
   match Wire.tokens line with
@@ -40,6 +140,14 @@ def handle (line : String) : String :=
       | some .fuel => "fuel"
       | none => "unsupported"
     | none => "bad-args"
+  | "spec" :: rest =>
+    match parseS rest with
+    | some (s, []) =>
+      let c := Spec.S.canon Spec.docLevels s
+      let wp := if decide (c.DocWP Spec.docLevels) then "1" else "0"
+      s!"{wp} {c.need} {c.bneed} {c.adneed} | " ++ " ".intercalate (c.toks.map tokWire) ++ " | "
+        ++ AstWire.showExpr s.erase
+    | _ => "bad-args"
   | _ => "bad-request"
 
 partial def loop (h : IO.FS.Stream) (out : IO.FS.Stream) : IO Unit := do
